@@ -169,28 +169,28 @@ func runCallAlign(p *Program, r *RuleResult) {
 		base ssa.Value
 		c    int64
 	}
-	idxOf := func(v ssa.Value) idx {
+	var idxOf func(v ssa.Value) idx
+	idxOf = func(v ssa.Value) idx {
 		switch x := v.(type) {
 		case *ssa.Const:
 			c, _ := constant.Int64Val(constant.ToInt(x.Value))
 			return idx{nil, c}
 		case *ssa.BinOp:
 			if k, ok := x.Y.(*ssa.Const); ok && (x.Op == token.ADD || x.Op == token.SUB) {
-				if _, isPhi := x.X.(*ssa.Phi); isPhi {
-					kv, _ := constant.Int64Val(constant.ToInt(k.Value))
-					if x.Op == token.SUB {
-						kv = -kv
-					}
-					// the rotated range index (phi + 1) is one value: keep it as a base
-					if x.Op == token.ADD && x.Referrers() != nil {
-						for _, u := range *x.Referrers() {
-							if ph, ok := u.(*ssa.Phi); ok && ph == x.X {
-								return idx{x, 0}
-							}
+				// the rotated range index (phi + 1, fed back into the phi) is one value
+				if ph, isPhi := x.X.(*ssa.Phi); isPhi && x.Op == token.ADD {
+					for _, e := range ph.Edges {
+						if e == ssa.Value(x) {
+							return idx{x, 0}
 						}
 					}
-					return idx{x.X, kv}
 				}
+				kv, _ := constant.Int64Val(constant.ToInt(k.Value))
+				if x.Op == token.SUB {
+					kv = -kv
+				}
+				in := idxOf(x.X)
+				return idx{in.base, in.c + kv}
 			}
 		}
 		return idx{v, 0}
@@ -204,6 +204,13 @@ func runCallAlign(p *Program, r *RuleResult) {
 		switch x := v.(type) {
 		case *ssa.UnOp:
 			return elemIndex(x.X, wantActuals, d+1)
+		case *ssa.Alloc:
+			// a local copy of an element (`a := xs[i]`, a range value)
+			for _, st := range storesTo(x) {
+				if iv, ok := elemIndex(st.Val, wantActuals, d+1); ok {
+					return iv, true
+				}
+			}
 		case *ssa.FieldAddr:
 			return elemIndex(x.X, wantActuals, d+1)
 		case *ssa.Field:
